@@ -188,6 +188,80 @@ def c14_recheck_under_the_lock():
     return out
 
 
+def c01_none_result_is_a_result():
+    """C01: an invocation that RETURNS None has returned successfully: it is never invoked again, waiting and later
+    callers get that result."""
+    from aiuti.asyncio import threadsafe_async_cache
+
+    async def sc():
+        calls = []
+        gate = aio.Event()
+
+        @threadsafe_async_cache
+        async def init_once(x):
+            calls.append(x)
+            await gate.wait()
+            return None if x == 'none' else 42
+        out = []
+        for key in ('none', 'other'):
+            del calls[:]
+            gate.clear()
+            a = aio.ensure_future(init_once(key))
+            await _turns(3)
+            b = aio.ensure_future(init_once(key))
+            await _turns(3)
+            gate.set()
+            ra, rb = await aio.gather(a, b)
+            rc = await init_once(key)
+            if len(calls) != 1 or not (ra is rb is rc):
+                out.append('C01: key %r (result %r): %d invocations for one computing, one waiting and one later '
+                           'caller' % (key, ra, len(calls)))
+        return out
+    return _run(sc)
+
+
+def c14_bounded_store_evicts_right_after_the_store():
+    """C06/C14: the caller-supplied mapping is a capacity-1 LRU; right after caller A stored its value another
+    thread's computation for another key evicts it: A still returns the value it computed (no KeyError from the
+    cache's own bookkeeping)."""
+    from aiuti.asyncio import threadsafe_async_cache
+    import collections
+    out = []
+
+    class LRU1(collections.OrderedDict):
+        hook = None
+
+        def __setitem__(self, k, v):
+            collections.OrderedDict.__setitem__(self, k, v)
+            while len(self) > 1:
+                self.popitem(last=False)
+            h, LRU1.hook = LRU1.hook, None
+            if h is not None:
+                h()
+    store = LRU1()
+
+    @threadsafe_async_cache(cache=store)
+    async def compute(x):
+        return ('value-for', x)
+
+    def other_thread():
+        th = threading.Thread(target=lambda: aio.run(compute('B')))
+        th.start()
+        th.join(20)
+    LRU1.hook = other_thread
+    lp = aio.new_event_loop()
+    try:
+        r = lp.run_until_complete(aio.wait_for(compute('A'), 30))
+        if r != ('value-for', 'A'):
+            out.append('C14: compute("A") returned %r' % (r,))
+    except BaseException as e:  # noqa
+        out.append('C06/C14: the entry of key A was evicted from the bounded caller-supplied mapping right after it '
+                   'was stored; the call that COMPUTED the value ended with %r' % (e,))
+    finally:
+        lp.close()
+    return out
+
+
 def c05_closed_computing_loop_is_taken_over():
     """C05: the computing loop is closed mid-computation; a caller on another loop takes the computation over
     instead of retrying for ever."""
@@ -439,6 +513,89 @@ def c03_foreign_thread_submission_reaches_an_idle_loop():
     return out
 
 
+def c03_function_failing_with_its_own_cancelled_error():
+    """C03/C07/C08: the wrapped function fails with a CancelledError of its own making (it awaited something that
+    somebody else cancelled): that is a failed call -- arguments kept and offered again, later bursts served."""
+    from aiuti.asyncio import BufferAsyncCalls
+
+    async def sc():
+        loop = aio.get_running_loop()
+        attempts = []
+
+        async def func(args):
+            attempts.append((round(loop.time(), 3), set(args)))
+            if len(attempts) == 1:
+                f = loop.create_future()
+                f.cancel()
+                await f                      # CancelledError, but nobody cancelled the buffer's task
+        buf = BufferAsyncCalls(func, timeout=1)
+        buf(1)
+        buf(2)
+        await aio.sleep(5)
+        buf(3)
+        await aio.sleep(5)
+        out = []
+        if buf._waiting.done():
+            out.append('C03/C07: after the wrapped function failed once with a CancelledError of its own the '
+                       'background task has ended (%r); attempts %r' % (buf._waiting, attempts))
+        delivered = set().union(*[a for _, a in attempts[1:]]) if len(attempts) > 1 else set()
+        if not {1, 2, 3} <= delivered:
+            out.append('C03/C08: arguments of the failed call / of the later burst never reached a successful call: '
+                       'attempts %r' % (attempts,))
+        buf._waiting.cancel()
+        await aio.gather(buf._waiting, return_exceptions=True)
+        return out
+    return _run(sc)
+
+
+def c08_foreign_thread_submission_restarts_the_quiet_period():
+    """C08: a plain call from ANOTHER thread during the quiet period is noticed at once: the burst goes out in one
+    call, timeout after that last submission (real time, judged only when the machine kept the schedule)."""
+    import time
+    from aiuti.asyncio import BufferAsyncCalls, loop_in_thread
+    T = 1.0
+    calls = []
+    done = threading.Event()
+
+    async def func(args):
+        calls.append((time.monotonic(), set(args)))
+        if {1, 2} <= set().union(*[a for _, a in calls]):
+            done.set()
+    l1 = aio.new_event_loop()
+    aio.set_event_loop(l1)
+    try:
+        buf = BufferAsyncCalls(func, timeout=T)
+    finally:
+        aio.set_event_loop(None)
+    stop = loop_in_thread(l1)
+    out = []
+    try:
+        t1 = []
+        l1.call_soon_threadsafe(lambda: (buf(1), t1.append(time.monotonic())))
+        time.sleep(0.3)
+        buf(2)
+        t2 = time.monotonic()
+        ok = done.wait(6)
+        if t1 and t2 - t1[0] < 0.7:          # otherwise the machine was too slow to make the point: inconclusive
+            if not ok:
+                out.append('C08/C03: a call from another thread during the quiet period was never delivered '
+                           '(calls: %r)' % [a for _, a in calls])
+            elif len(calls) != 1 or calls[0][0] < t2 + T - 0.15:
+                out.append('C08: submissions 0.3 s apart (timeout %.1f s, the second from another thread): calls %r at '
+                           '%r s after the second submission; expected ONE call {1, 2} about %.1f s after it'
+                           % (T, [a for _, a in calls], [round(t - t2, 2) for t, _ in calls], T))
+    finally:
+        stop()
+        for t in aio.all_tasks(l1):
+            t.cancel()
+        try:
+            l1.run_until_complete(aio.sleep(0))
+        except BaseException:  # noqa
+            pass
+        l1.close()
+    return out
+
+
 def c07_shutdown_while_a_flush_is_requested():
     """C07: the buffer's background task is cancelled (what loop shutdown does) around the moment a wait() asks
     for a flush: it always terminates."""
@@ -553,6 +710,33 @@ def c04_burst_with_a_cancelled_caller():
             if out:
                 return out
         return []
+    return _run(sc)
+
+
+def c04_batch_size_lowered_while_assembling():
+    """C04/C10: max_batch_size may be changed at any time (documented): lowering it below what the collector already
+    holds, then one more request -- everybody is still answered."""
+    from aiuti.asyncio import AsyncBackgroundBatcher
+
+    async def sc():
+        loop = aio.get_running_loop()
+        log = []
+        b = AsyncBackgroundBatcher(_mk_batchfn(log, loop), max_batch_size=10, batch_timeout=3600)
+        first = [aio.ensure_future(b(i)) for i in (1, 2, 3)]
+        await _turns(6)                     # collected; the collector sits in its timed wait
+        b.max_batch_size = 2
+        late = aio.ensure_future(b(4))
+        await _turns(6)
+        b.max_batch_size = 1                # whatever is assembled now is "full"
+        more = aio.ensure_future(b(5))
+        done, pending = await aio.wait(first + [late, more], timeout=20000)
+        out = []
+        if pending:
+            out.append('C04: after max_batch_size was lowered while a batch was being assembled %d callers were never '
+                       'answered (batches %r; processing loop: %r)' % (len(pending), [k for _, k in log], b._loop_task))
+            for t in pending:
+                t.cancel()
+        return out
     return _run(sc)
 
 
@@ -684,6 +868,22 @@ def c15_options_form_equals_direct_form_batcher():
             if r2 != r1 or len(log3) != 2 or r3 == r1:
                 out.append('C11/C15 (%s form): retention_timeout=10, batch_timeout=1: outcomes %r / %r (+4 s) / %r '
                            '(+24 s), %d batches' % (form, r1, r2, r3, len(log3)))
+            # --- the window also holds when the FIRST caller was cancelled while its request was in flight
+            log5, gate5 = [], aio.Event()
+            fn5 = _mk_batchfn(log5, loop, gate=gate5)
+            kw5 = dict(batch_timeout=1, retention_timeout=10)
+            call5 = (async_background_batcher(**kw5)(fn5) if form == 'options' else
+                     async_background_batcher(fn5, **kw5) if form == 'direct-decorator' else AsyncBackgroundBatcher(fn5, **kw5))
+            first = aio.ensure_future(call5('z'))
+            await aio.sleep(2)                 # batch running, parked on the gate
+            first.cancel()
+            await _turns(3)
+            gate5.set()
+            await aio.sleep(1)
+            await call5('z')                   # 1 s after the answer: inside the window
+            if len(log5) != 1:
+                out.append('C11/C15 (%s form): retention_timeout=10; the first caller was cancelled in flight, the '
+                           'request was answered, a call 1 s later started batch #%d (window ignored)' % (form, len(log5)))
             # --- retention_timeout=0: nothing is remembered once answered
             log4 = []
             fn4 = _mk_batchfn(log4, loop)
@@ -871,6 +1071,55 @@ def c17_every_kind_of_awaitable_crosses_loops():
     return out
 
 
+def c17_idle_target_does_not_depend_on_the_default_executor():
+    """C17: borrowing an idle loop works whatever the state of the CALLER loop's default executor (shut down, or a
+    single thread that is busy)."""
+    from aiuti.asyncio import ensure_aw
+    from concurrent.futures import ThreadPoolExecutor
+    out = []
+
+    async def val():
+        await aio.sleep(0)
+        return 'ok'
+
+    async def main_shutdown():
+        await aio.get_running_loop().shutdown_default_executor()
+        target = aio.new_event_loop()
+        try:
+            return await aio.wait_for(ensure_aw(val(), target), 10)
+        finally:
+            target.close()
+
+    async def main_tiny():
+        loop = aio.get_running_loop()
+        pool = ThreadPoolExecutor(1)
+        loop.set_default_executor(pool)
+        release = threading.Event()
+        busy = loop.run_in_executor(None, release.wait, 15)      # the only default worker is taken
+        target = aio.new_event_loop()
+        try:
+            return await aio.wait_for(ensure_aw(val(), target), 6)
+        finally:
+            release.set()
+            await busy
+            target.close()
+    for name, m in (('shut down', main_shutdown), ('single busy thread', main_tiny)):
+        lp = aio.new_event_loop()
+        try:
+            r = lp.run_until_complete(m())
+            if r != 'ok':
+                out.append('C17: ensure_aw on an idle loop (caller default executor: %s) returned %r' % (name, r))
+        except BaseException as e:  # noqa
+            out.append('C17: ensure_aw on an idle loop with the caller loop\'s default executor %s ended with %r: the '
+                       'awaitable was not evaluated' % (name, e))
+        finally:
+            try:
+                lp.close()
+            except BaseException:  # noqa
+                pass
+    return out
+
+
 def c20_every_kind_of_awaitable_and_failure():
     """C20: gather_excs / raise_first_exc over coroutines, spawned Tasks, plain Futures (failed through
     set_exception with an exception that was never raised) and objects with __await__."""
@@ -912,6 +1161,30 @@ def c20_every_kind_of_awaitable_and_failure():
             else:
                 f.set_exception(exc)      # never raised: no traceback
             return f
+        # failures that are BaseException-only count without `only`; one-shot iterables are gathered completely
+        class Fatal(BaseException):
+            pass
+        fatal, later = Fatal('first'), E1('second')
+        try:
+            await raise_first_exc([co(fatal), co(None), co(later)])
+            res = 'returned None'
+        except BaseException as e:  # noqa
+            res = e
+        if res is not fatal:
+            out.append('C20: raise_first_exc([fails with a BaseException-only error, ok, fails with an Exception]) -> %r, '
+                       'expected the first failure in input order' % (res,))
+        ran = []
+
+        async def job(i, exc):
+            ran.append(i)
+            if exc is not None:
+                raise exc
+        e0, e2 = E1('job 0'), E1('job 2')
+        got = [e async for e in gather_excs(job(i, x) for i, x in enumerate((e0, None, e2)))]
+        if got != [e0, e2] or sorted(ran) != [0, 1, 2]:
+            out.append('C20: gather_excs(<generator of 3 jobs, 0 and 2 failing>) yielded %r, jobs run %r' % (got, sorted(ran)))
+        if out:
+            return out
         kinds = ('coroutine', 'task', 'future', 'custom')
         import itertools
         for combo in itertools.product(kinds, repeat=2):
@@ -942,24 +1215,28 @@ def c20_every_kind_of_awaitable_and_failure():
 
 
 SCENARIOS = {
-    'C01': [c01_owner_cancelled_mid_invocation, c01_keyword_order, c14_recheck_under_the_lock],
-    'C14': [c01_keyword_order, c14_hash_equal_arguments, c14_recheck_under_the_lock, c15_options_form_cache_default],
+    'C01': [c01_owner_cancelled_mid_invocation, c01_keyword_order, c14_recheck_under_the_lock,
+            c01_none_result_is_a_result],
+    'C14': [c01_keyword_order, c14_hash_equal_arguments, c14_recheck_under_the_lock, c15_options_form_cache_default,
+            c14_bounded_store_evicts_right_after_the_store],
     'C05': [c05_closed_computing_loop_is_taken_over, c05_stopped_computing_loop_recovery,
             c06_cancelled_waiter_ends_at_once],
     'C06': [c06_own_cancellation_together_with_a_foreign_one, c06_cancelled_waiter_ends_at_once,
-            c05_stopped_computing_loop_recovery],
-    'C03': [c03_foreign_thread_submission_reaches_an_idle_loop],
-    'C04': [c04_burst_with_a_cancelled_caller, c04_owner_cancelled_then_same_key_again_in_the_open_batch],
+            c05_stopped_computing_loop_recovery, c14_bounded_store_evicts_right_after_the_store],
+    'C03': [c03_foreign_thread_submission_reaches_an_idle_loop, c03_function_failing_with_its_own_cancelled_error],
+    'C04': [c04_burst_with_a_cancelled_caller, c04_owner_cancelled_then_same_key_again_in_the_open_batch,
+            c04_batch_size_lowered_while_assembling],
     'C09': [c04_owner_cancelled_then_same_key_again_in_the_open_batch, c11_sharer_cancelled_while_pending],
-    'C10': [c15_options_form_equals_direct_form_batcher],
+    'C10': [c15_options_form_equals_direct_form_batcher, c04_batch_size_lowered_while_assembling],
     'C11': [c11_sharer_cancelled_while_pending, c04_owner_cancelled_then_same_key_again_in_the_open_batch,
             c15_options_form_equals_direct_form_batcher],
     'C15': [c15_options_form_equals_direct_form_batcher, c15_options_form_cache_default],
     'C16': [c16_producer_far_ahead_of_the_consumer],
-    'C17': [c17_every_kind_of_awaitable_crosses_loops],
+    'C17': [c17_every_kind_of_awaitable_crosses_loops, c17_idle_target_does_not_depend_on_the_default_executor],
     'C20': [c20_every_kind_of_awaitable_and_failure],
-    'C07': [c07_shutdown_while_a_flush_is_requested],
-    'C08': [c08_wait_from_anywhere_without_flush],
+    'C07': [c07_shutdown_while_a_flush_is_requested, c03_function_failing_with_its_own_cancelled_error],
+    'C08': [c08_wait_from_anywhere_without_flush, c03_function_failing_with_its_own_cancelled_error,
+            c08_foreign_thread_submission_restarts_the_quiet_period],
 }
 
 
